@@ -71,6 +71,7 @@ Fixpoint run_fx (l : list fx) (a : arg) (s : ist) (lp : option prog) (tmp : opti
       | AId id => run_fx l' a {| i_prog := i_prog s; i_vf := i_vf s; i_helpers := hadd (i_helpers s) id; i_jit := i_jit s; i_cl := i_cl s |} lp tmp
       | _ => (s, RErrVerifier)
       end
+    | FxTakeExecMem => run_fx l' a s lp tmp               (* executable memory is not part of this state machine *)
     | FxRequireProg =>
       match i_prog s with
       | Some p => run_fx l' a s (Some p) tmp
@@ -113,3 +114,16 @@ Proof.
   - destruct sp as [p|]; [destruct (compilable p sh)|]; reflexivity.
 Qed.
 End Fx.
+
+(** C20: the same methods compiled without the std feature have the same effects, except that jit_compile takes the
+    caller-supplied executable memory -- after the check that a program is loaded, so a call refused for lack of a program
+    leaves the memory in place for the next call *)
+Definition not_take (f : fx) : bool := match f with FxTakeExecMem => false | _ => true end.
+Theorem no_std_effects_agree :
+  gen_fx_set_program_no_std = gen_fx_set_program /\ gen_fx_set_verifier_no_std = gen_fx_set_verifier /\
+  gen_fx_register_helper_no_std = gen_fx_register_helper /\
+  gen_fx_set_stack_usage_calculator_no_std = gen_fx_set_stack_usage_calculator /\
+  gen_fx_cranelift_compile_no_std = gen_fx_cranelift_compile /\
+  filter not_take gen_fx_jit_compile_no_std = gen_fx_jit_compile /\
+  (exists rest, gen_fx_jit_compile_no_std = FxRequireProg :: FxTakeExecMem :: rest).
+Proof. repeat split. eexists. reflexivity. Qed.
